@@ -1218,6 +1218,20 @@ short store_prog_string (const char *string_data) {
    * New string, add to table
    */
 
+  if (freed_string < 0 && mem_block[A_STRINGS].current_size / sizeof (char *) >= SHRT_MAX)
+    {
+      /* string numbers are (signed) shorts: the table is full. The compilation fails; string 0 stands in */
+      short *refs = (short *) mem_block[A_STRING_REFS].block;
+
+      if (next == -1)
+        *tagp &= ~mask;		/* the hash chain is still empty */
+      free_string (str);
+      yyerror ("Too many string constants in one program.");
+      if (refs[0] < SHRT_MAX)
+        refs[0]++;
+      return 0;
+    }
+
   if (freed_string >= 0)
     {
       /* reuse freed string */
